@@ -40,6 +40,16 @@ def specBody : List Cmd → List (Option Int) → BodySt → BodyRes
         | [] => .starved
         | x :: rd' => specBody r rd' { s with results := s.results ++ [x] }
   | .delete k :: r, rd, s => specBody r rd { s with ov := s.ov.erase k, del := k :: s.del.filter (· ≠ k) }
+  | .expire k :: r, rd, s =>
+    -- re-time `k`: nothing if it is deleted or already buffered (same value); else buffer what the backend holds, if anything
+    if k ∈ s.del then specBody r rd s
+    else match s.ov.get k with
+      | some _ => specBody r rd s
+      | none =>
+        match rd with
+        | [] => .starved
+        | none :: rd' => specBody r rd' s
+        | some v :: rd' => specBody r rd' { s with ov := s.ov.put k v }
   | .sleep _ :: r, rd, s => specBody r rd s
   | .raise :: _, _, _ => .raised
   | .nestIn _ :: r, rd, s => specBody r rd s
